@@ -281,7 +281,7 @@ func runC10(c *Ctx) {
 		}
 	}
 	c.Meta(map[string]interface{}{
-		"rule": "(A) BFS over histories up to the depth (inserts, updates, deletes of pending objects, batch, search-delete, explicit clock ticks, FlushAll, FlushAllAndCommit, Close+Open with and without Create as first call, Repair) under three threshold/timeout settings: after every history the live handle equals the reference (visibility), no deleted object has a file, barriers (FlushAll / FlushAllAndCommit / Close) leave files = reference and a second handle on a copy of the directory sweeps = reference; from every new state the virtual clock alone advances past the timeout (or the threshold is met) and the files must equal the reference without any further call, then Close and a second handle. (B) client programs against the background writer: every schedule and tick placement within the deviation bound; same deadline / deleted-never-on-disk / Close oracles, no thread panic. Virtual time only.",
+		"rule":    "(A) BFS over histories up to the depth (inserts, updates, deletes of pending objects, batch, search-delete, explicit clock ticks, FlushAll, FlushAllAndCommit, Close+Open with and without Create as first call, Repair) under three threshold/timeout settings: after every history the live handle equals the reference (visibility), no deleted object has a file, barriers (FlushAll / FlushAllAndCommit / Close) leave files = reference and a second handle on a copy of the directory sweeps = reference; from every new state the virtual clock alone advances past the timeout (or the threshold is met) and the files must equal the reference without any further call, then Close and a second handle. (B) client programs against the background writer: every schedule and tick placement within the deviation bound; same deadline / deleted-never-on-disk / Close oracles, no thread panic. Virtual time only.",
 		"configs": cfgs, "depth": depth, "timing_programs": len(progs),
 	})
 }
